@@ -33,6 +33,9 @@ var c09Tables = [][]c09Route{
 	{{"GET", "/api/:v1/users"}, {"GET", "/:v0/v1/items"}, {"POST", "/api/v1/items"}},
 	{{"GET", "/a/b"}, {"POST", "/a/b"}, {"PUT", "/a/:v1"}},
 	{{"GET", "/:v0/:v1/:v2"}, {"GET", "/a/:v1/c"}, {"GET", "/a/b/:v2"}},
+	// one route a segment-wise proper prefix of another, registered after / before the longer one
+	{{"GET", "/a/:v1/b"}, {"GET", "/a/:v1"}, {"GET", "/a"}},
+	{{"GET", "/a"}, {"GET", "/a/b"}, {"GET", "/a/b/:v2"}},
 }
 
 type c09Writer struct {
@@ -176,7 +179,7 @@ func c09Segment() string {
 }
 
 //verif:entry tier=quick,thorough maporder=perm steps=3000000 cover=dispatched,vars,notfound,notallowed
-//verif:doc H1: 10 route tables (3 routes each: literal/variable siblings, shared prefixes, backtracking, several methods) x request of 0..3 (quick) / 0..4 (thorough) segments of 1..2 symbolic ASCII bytes (any byte but '/', never "." or "..") x method GET/POST/PUT; the root path is the 0-segment case; map iteration order is a decision.
+//verif:doc H1: 12 route tables (3 routes each: literal/variable siblings, shared prefixes, proper prefixes registered before and after the longer route, backtracking, several methods) x request of 0..3 (quick) / 0..4 (thorough) segments of 1..2 symbolic ASCII bytes (any byte but '/', never "." or "..") x method GET/POST/PUT; the root path is the 0-segment case; map iteration order is a decision.
 func Verif_C09_Dispatch() {
 	w := c09Build(c09Tables[rt.Choose("table", len(c09Tables))])
 	maxSegs := 3
